@@ -89,6 +89,8 @@ class ConvexPolyhedron(Polyhedron):
 
     def __init__(self, vertices):
         self._vertices = np.array(vertices, dtype=np.float64)
+        if self._vertices.ndim != 2 or self._vertices.shape[1] != 3:
+            raise ValueError("Vertices must be specified as an Nx3 array.")
         self._ndim = self._vertices.shape[1]
         hull = ConvexHull(self._vertices)
         self._faces_are_convex = True
